@@ -16,7 +16,8 @@
 (*     | "dup" (twice, same valid value) | "wrong" | key only: "len23",    *)
 (*     "len25", "empty", "latebad", "earlybad" (a second, ill-sized key     *)
 (*     line), "nonb64" (24 characters that are not base64:                  *)
-(*     open) | wsversion only: "other" (a different number)                *)
+(*     open) | wsversion only: "other" (a different number), "lead0" (013,  *)
+(*     13.0, +13: not literally 13)                                         *)
 (* cfg: reject in "none" | "onrequest" | "onhost" | "onheader" | "onbefore"*)
 (*      | "negotiate", rejectStatus (0 = plain error -> 500)               *)
 (***************************************************************************)
@@ -44,7 +45,7 @@ Problems(req) ==
       \cup (IF req.method # "GET" THEN {405} ELSE {})
       \cup (IF req.host \notin Good \/ req.upgrade \notin Good \/ req.connection \notin Good THEN {400} ELSE {})
       \cup (IF req.wsversion = "absent" THEN {400} ELSE {})
-      \cup (IF req.wsversion \in {"wrong", "other"} THEN {426} ELSE {})
+      \cup (IF req.wsversion \in {"wrong", "other", "lead0"} THEN {426} ELSE {})
       \* ("latebad" / "earlybad": a valid key plus another Sec-WebSocket-Key line that is not 24 characters
       \*  long, after / before all other headers - a key that is not 24 characters long is always refused)
       \cup (IF req.key \in {"absent", "len23", "len25", "empty", "latebad", "earlybad"} THEN {400} ELSE {})
